@@ -39,6 +39,9 @@ def _arrays(kind, params, symbolic, rng):
         ints("idx", (m,), size)
         if mode != "direct":
             real("x", (n, 2))
+    elif kind == "approximate":
+        real("model", (3,))
+        real("guide", (3, 2))
     elif kind == "cat_index":
         sizes, how = params
         a = ints("idx", () if how == "scalar" else (2,), sum(sizes))
@@ -68,7 +71,20 @@ def _run(kind, params, arrays, rand=None):
     import funsor.ops as ops
     from funsor import Bint, Tensor, Variable
     from funsor.interpretations import lazy
-    held = []
+    from monitor import mutation as M
+
+    class _Held(list):
+        """funsors the caller keeps: each is snapshotted the moment it is put here, so that later steps of the same
+        scenario (and not only code after the scenario) are checked against it"""
+
+        def append(self, f):
+            list.append(self, M.snap_funsor(f))
+
+        def __iadd__(self, fs):
+            for f in fs:
+                self.append(f)
+            return self
+    held = _Held()
     if kind == "sample":
         import funsor.tensor as FT
         sizes, sampled, sample_inputs = params
@@ -100,6 +116,37 @@ def _run(kind, params, arrays, rand=None):
                 e = x(i=Slice("t", start, stop, step, n))
             held.append(e(t=idx))
             held.append(x(i=Slice("t", start, stop, step, n))(t=idx))
+    elif kind == "approximate":
+        # a lazily built Approximate whose guide has an input the model lacks; and the adjoint of a lazy reduction
+        # (adjoint rules build Approximate terms around shared constants)
+        from funsor.interpretations import reflect
+        how = params
+        model = Tensor(arrays["model"], OrderedDict(a=Bint[3]))
+        guide = Tensor(arrays["guide"], OrderedDict(a=Bint[3], b=Bint[2]))
+        zero = funsor.Number(0.0)
+        held += [model, guide, zero]
+        if how in ("lazy", "reflect"):
+            from funsor import Real
+            with (lazy if how == "lazy" else reflect):
+                lazy_model = Variable("y", Real) + model          # a term that stays lazy and is held by the caller
+            held.append(lazy_model)
+            with (lazy if how == "lazy" else reflect):
+                for mdl in (lazy_model, model):
+                    try:
+                        held.append(mdl.approximate(ops.logaddexp, guide, "a"))
+                    except AssertionError:
+                        pass
+        else:
+            from funsor.adjoint import adjoint
+            with lazy:
+                e1 = guide.reduce(ops.logaddexp, "b")
+                e2 = (model + guide).reduce(ops.logaddexp, frozenset(["a", "b"]))
+            for e in (e1, e2):
+                try:
+                    bw = adjoint(ops.logaddexp, ops.add, e)
+                    held += [v for v in bw.values() if isinstance(v, funsor.terms.Funsor)]
+                except Exception:
+                    pass
     elif kind == "cat_index":
         # a Cat that stays lazy (its parts mention a free real variable), indexed by an integer Tensor
         from funsor import Real
@@ -180,7 +227,7 @@ def worker(inst):
     def monitored(arrays, symbolic, rand=None):
         snaps = [(n, M.snap_sym(a) if symbolic and a.dtype == object else M.snap_conc(a)) for n, a in arrays.items()]
         with np.errstate(all="ignore"):
-            held = [M.snap_funsor(h) for h in _run(kind, params, arrays, rand)]
+            held = list(_run(kind, params, arrays, rand))
         problems, symdiffs = [], []
         for n, s in snaps:
             if "cells" in s:
@@ -282,6 +329,8 @@ def instances(tier):
     for sl in [(1, 4, 1, 4), (0, 4, 1, 4), (0, 4, 2, 4), (1, 4, 2, 4), (2, 5, 1, 6), (1, 6, 3, 6)]:
         for mode in ("direct", "lazy"):
             out.append(("api", "slice_index", (sl, 3, mode)))
+    for how in ("lazy", "reflect", "adjoint"):
+        out.append(("api", "approximate", how))
     for sizes in ((2, 3), (1, 2, 2)):
         for how in ("scalar", "vector"):
             out.append(("api", "cat_index", (sizes, how)))
